@@ -1,7 +1,7 @@
 """Property -> rules.  The explanation/assumption texts end up in the evidence files."""
 from .rules import dtype, evalnodes, executor, aggregates, eqfaith, compiler_rules as cr
 from .rules import cursor_rules as cu, library_rules as lib, state_rules as st, grammar_rules as gr
-from .rules import table_rules as tb, clause_rules as cl, sx_exec as sx, sx_cursor as sxc
+from .rules import table_rules as tb, clause_rules as cl, sx_exec as sx, sx_cursor as sxc, sx_compiler as sxk, sx_select as sxs, sx_pivot as sxp
 
 TRUSTED_ABSINT = [
     "Python/library semantics of operators, attributes, methods and whitelisted callables are obtained by applying "
@@ -37,7 +37,7 @@ PROPS = {
             "resolution for nested expressions."),
         'assumptions': TRUSTED_STRUCT + TRUSTED_ABSINT[3:],
         'quick': [evalnodes.rule_nullstrict, evalnodes.rule_divguard, evalnodes.rule_promote, evalnodes.rule_opsem,
-                  evalnodes.rule_3vl, sx.rule_rowloop, executor.rule_fromand, cr.rule_implicitcast],
+                  evalnodes.rule_3vl, sx.rule_rowloop, executor.rule_fromand, sxk.rule_implicitcast],
         'thorough': [],
     },
     'C02': {
@@ -53,7 +53,7 @@ PROPS = {
             "validated against the domain they are resolved in (R-IDXBOUND) and hidden grouping targets nameless and "
             "appended (R-HIDDEN). Does not decide numeric values of folds nor hashing/equality of key values."),
         'assumptions': TRUSTED_STRUCT,
-        'quick': [executor.rule_aggproto, aggregates.rule_aggclass, eqfaith.rule_eqfaith, cr.rule_idxbound, cr.rule_hidden],
+        'quick': [sxs.rule_aggproto, aggregates.rule_aggclass, eqfaith.rule_eqfaith, sxk.rule_idxbound, cr.rule_hidden],
         'thorough': [],
     },
     'C03': {
@@ -70,8 +70,8 @@ PROPS = {
             "not prove that the multi-pass scheme yields the lexicographic order (an algorithmic fact about stable "
             "sorts) nor comparability of values."),
         'assumptions': TRUSTED_STRUCT,
-        'quick': [executor.rule_pipeline, executor.rule_sortskel, sx.rule_nullkey, eqfaith.rule_eqfaith,
-                  cr.rule_idxbound, cr.rule_hidden],
+        'quick': [sxs.rule_pipeline, sxs.rule_sortskel, sx.rule_nullkey, eqfaith.rule_eqfaith,
+                  sxk.rule_idxbound, cr.rule_hidden],
         'thorough': [],
     },
     'C04': {
@@ -90,8 +90,8 @@ PROPS = {
             "MRO lookup admits (R-ADMITTED). Decides type conformance of declarations vs. implementations for all overloads; "
             "does not decide values of dtype `object` nor conformance of ledger data to beancount's annotations."),
         'assumptions': TRUSTED_ABSINT,
-        'quick': [dtype.rule_dtype, dtype.rule_typesafe, dtype.rule_renderable, cr.rule_opresolve, cr.rule_coalesce,
-                  cr.rule_implicitcast],
+        'quick': [dtype.rule_dtype, dtype.rule_typesafe, dtype.rule_renderable, cr.rule_opresolve, sxk.rule_coalesce,
+                  sxk.rule_implicitcast],
         'thorough': [dtype.rule_admitted],
     },
     'C05': {
@@ -110,9 +110,9 @@ PROPS = {
             "equality faithful (R-EQFAITH). Does not decide acceptance of every well-formed statement nor validity "
             "of parse positions produced by TatSu at run time."),
         'assumptions': TRUSTED_STRUCT + TRUSTED_ABSINT[:1],
-        'quick': [cr.rule_raise, cr.rule_guards, cr.rule_targetchk, cr.rule_guard_typesafe, cr.rule_idxbound,
+        'quick': [cr.rule_raise, cr.rule_guards, cr.rule_targetchk, cr.rule_guard_typesafe, sxk.rule_idxbound,
                   cr.rule_opresolve, cr.rule_partial, cr.rule_foldsafe, cr.rule_exhaustive, cr.rule_exctree,
-                  eqfaith.rule_eqfaith, cr.rule_coalesce, cr.rule_implicitcast],
+                  eqfaith.rule_eqfaith, sxk.rule_coalesce, sxk.rule_implicitcast],
         'thorough': [],
     },
     'C06': {
@@ -146,7 +146,7 @@ PROPS = {
             "the node's own parse info (R-NAMESLICE); projection to visible indexes (R-PIPELINE). Does not decide that "
             "the slice equals the expression's text for arbitrary spacing (positions come from TatSu at run time)."),
         'assumptions': TRUSTED_STRUCT,
-        'quick': [cr.rule_hidden, cr.rule_visfilter, cr.rule_wildcard, cr.rule_nameslice, executor.rule_pipeline],
+        'quick': [cr.rule_hidden, cr.rule_visfilter, cr.rule_wildcard, cr.rule_nameslice, sxs.rule_pipeline],
         'thorough': [],
     },
     'C08': {
@@ -325,7 +325,7 @@ PROPS = {
             "column, block placement keys.index(k) * nother + 1, NULL fill (R-PIVOTSHAPE: the recognised skeleton; a "
             "rewrite ends in ANALYSIS-ERROR, not a verdict). NOT decided: the index arithmetic for all key sets."),
         'assumptions': TRUSTED_STRUCT,
-        'quick': [cr.rule_idxbound, cr.rule_guard_typesafe, cr.rule_guards, cl.rule_pivotshape],
+        'quick': [sxk.rule_idxbound, cr.rule_guard_typesafe, cr.rule_guards, sxp.rule_pivotshape],
         'thorough': [],
     },
     'C19': {
